@@ -364,7 +364,24 @@ class Fn(object):
             for pol, s in ((True, succ[0]), (False, succ[1])):
                 if s >= 0 and self.edge_dominates(b["id"], s, pb[0]):
                     out.append((cond, pol))
+                    self._split_logical(cond, pol, out)
         return out
+
+    def _split_logical(self, cond, pol, out, depth=0):
+        """(A && B) true => A true, B true; (A || B) false => both false;
+        !X flips.  The clang CFG puts the whole expression on the last block
+        of a short-circuit condition."""
+        if depth > 6:
+            return
+        i = self.strip(cond, casts=True)
+        st = self.stmts[i]
+        if st["k"] == "UnaryOperator" and st["op"] == "!":
+            out.append((st["c"][0], not pol))
+            self._split_logical(st["c"][0], not pol, out, depth + 1)
+        elif st["k"] == "BinaryOperator" and ((st["op"] == "&&" and pol) or (st["op"] == "||" and not pol)):
+            for c in st["c"]:
+                out.append((c, pol))
+                self._split_logical(c, pol, out, depth + 1)
 
     def reach_from(self, start_blocks, avoid=()):
         seen = set()
